@@ -115,7 +115,7 @@ def gen_read(rng, tier):
                 (3, 0), (8, 1), (14, rng.range(2, 100)), (8, rng.range(100, 4000)),
                 (10, rng.choice([4095, 4096, 4097])), (10, rng.choice([8191, 8192, 8193])),
                 (5, max(0, rem - 1)), (5, rem), (5, rem + 1), (5, rng.range(8194, 30000)),
-                (3, rng.choice([12288, 16384, 65536, 1 << 30])), (12, max(1, rem // (left_ops + 1))), (8, max(1, rem // 2)),
+                (3, rng.choice([12288, 16384, 65536, 1 << 30, 1 << 40, 1 << 62, (1 << 63) - 1])), (12, max(1, rem // (left_ops + 1))), (8, max(1, rem // 2)),
             ])
             ops.append({"h": h, "op": "read", "n": n})
             cursors[h] += min(n, rem)
